@@ -51,9 +51,9 @@ async fn run_case(line: &str) -> String {
     let (tx, mut rx) = tokio::sync::mpsc::channel::<TrackerCmd>(4);
     let mut client = TrackerClient::new(&id, m, tx);
     let run = tokio::spawn(async move { client.run().await });
-    let first = tokio::time::timeout(std::time::Duration::from_secs(5), rx.recv()).await;
+    let first = tokio::time::timeout(std::time::Duration::from_secs(30), rx.recv()).await;
     run.abort();
-    let req = match tokio::time::timeout(std::time::Duration::from_secs(2), server).await {
+    let req = match tokio::time::timeout(std::time::Duration::from_secs(15), server).await {
         Ok(Ok(buf)) => buf,
         _ => vec![],
     };
